@@ -1,0 +1,39 @@
+//go:build verif
+
+// Add-only verification hook for property C19: exported handles on the unexported index
+// wrappers of vector_sparse_index.go (vectorSparseIndex / vectorSparseIndexIterator), so that
+// the harness can run its operation histories THROUGH indexInsert / indexDelete / indexClone /
+// indexIterator / indexIteratorFrom / indexSafeIterator / indexSafeIteratorFrom / Get / Clone
+// and still observe the underlying AvlTree / AvlIterator objects.
+package autodiff
+
+type VerifC19Index struct{ x vectorSparseIndex }
+
+type VerifC19IndexIter struct{ x vectorSparseIndexIterator }
+
+func VerifC19NewIndex() *VerifC19Index { return &VerifC19Index{} }
+
+func (v *VerifC19Index) Tree() *AvlTree { return &v.x.AvlTree }
+func (v *VerifC19Index) Insert(i int)   { v.x.indexInsert(i) }
+func (v *VerifC19Index) Delete(i int)   { v.x.indexDelete(i) }
+func (v *VerifC19Index) Clone() *VerifC19Index {
+	return &VerifC19Index{v.x.indexClone()}
+}
+func (v *VerifC19Index) Iterator() *VerifC19IndexIter {
+	return &VerifC19IndexIter{v.x.indexIterator()}
+}
+func (v *VerifC19Index) IteratorFrom(i int) *VerifC19IndexIter {
+	return &VerifC19IndexIter{v.x.indexIteratorFrom(i)}
+}
+func (v *VerifC19Index) SafeIterator() *VerifC19IndexIter {
+	return &VerifC19IndexIter{v.x.indexSafeIterator()}
+}
+func (v *VerifC19Index) SafeIteratorFrom(i int) *VerifC19IndexIter {
+	return &VerifC19IndexIter{v.x.indexSafeIteratorFrom(i)}
+}
+
+func (v *VerifC19IndexIter) It() *AvlIterator { return &v.x.AvlIterator }
+func (v *VerifC19IndexIter) Get() int        { return v.x.Get() }
+func (v *VerifC19IndexIter) Clone() *VerifC19IndexIter {
+	return &VerifC19IndexIter{*v.x.Clone()}
+}
